@@ -77,7 +77,14 @@ def tree_hash():
     add_dir(os.path.join(ROOT, 'corpus'), ('.ops',))
     with open(os.path.join(ROOT, 'check.py'), 'rb') as fh:
         h.update(hashlib.sha256(fh.read()).digest())
-    add_dir(LEAN, ('.lean', '.toml'), skip=(os.path.join(LEAN, 'Hub', 'Generated'),))
+    # of the Lean sources only what the model driver is built from decides a correspondence run (the cached
+    # object); proof files are rebuilt incrementally by lake on every check and do not enter the cache key
+    add_dir(os.path.join(LEAN, 'Hub', 'Model'), ('.lean',))
+    add_dir(os.path.join(LEAN, 'Hub', 'SDK'), ('.lean',))
+    for f in ('Main.lean', 'lakefile.toml', 'lakefile.lean'):
+        if os.path.exists(os.path.join(LEAN, f)):
+            with open(os.path.join(LEAN, f), 'rb') as fh:
+                h.update(hashlib.sha256(fh.read()).digest())
     return h.hexdigest()[:20]
 
 
@@ -323,7 +330,7 @@ def changed_functions():
 def corr_plan(tier, seed, boost=False):
     """(profile, seed, blocks) triples of a tier, derived from VERIF_SEED. `boost`: some function differs from
     the text the model was validated against - the quick tier then runs three times the histories."""
-    profiles = ['lifecycle', 'money', 'quota', 'authz', 'gov', 'govdelay', 'extreme', 'genesis', 'sessions']
+    profiles = ['lifecycle', 'money', 'quota', 'authz', 'gov', 'govdelay', 'extreme', 'genesis', 'sessions', 'validate']
     plan = []
     if boost and tier == 'quick':
         for i, p in enumerate(profiles):
